@@ -101,3 +101,49 @@ pub fn tag_table_inner() {
         Err(e) => { core::mem::forget(e); assert!(false, "[C15/foreign.inner.kind] a foreign inner tag yields InvalidTag") }
     };
 }
+
+/// a derived enum with more than 256 variants: the pointer-width variant index
+/// is written and read back for every variant (also past 255), bytes equal to
+/// the reference encoding, and the first foreign index is refused
+// @h rt_full_ebig props=C15,C01,C05,C06 tier=quick kind=complete vars="v: any of the 260 variants of EBig, pos0<16" fns="derive:EBig (enum tags)"
+#[kani::proof]
+#[kani::unwind(3)]
+pub fn rt_full_ebig() {
+    let v = <crate::big::EBig as Sym>::sym(0);
+    let pos0: usize = kani::any();
+    kani::assume(pos0 < MAX_PREFIX);
+    lemma_rt_full::<crate::big::EBig, 32>(&v, pos0);
+}
+// @h tag_table_ebig props=C15,C05 tier=quick kind=complete vars="tag word: any u64 (260 valid, all others foreign)" fns="derive:EBig (enum tags)"
+#[kani::proof]
+#[kani::unwind(3)]
+pub fn tag_table_ebig() {
+    use crate::big::*;
+    let tag: u64 = kani::any();
+    let bytes = tag.to_le_bytes();
+    let mut src: &[u8] = &bytes[..];
+    let mut rd = ReaderWithPos::new(&mut src);
+    match <EBig>::_deserialize_full_inner(&mut rd) {
+        Ok(v) => {
+            assert!(tag < 260, "[C15/foreign.full] a foreign variant index is never mapped to a variant (full copy)");
+            assert!(v as usize as u64 == tag, "[C15/tag.value] variant i is read from index i");
+        }
+        Err(deser::Error::InvalidTag(t)) => {
+            assert!(tag >= 260, "[C15/valid.full] every written variant index is accepted (full copy)");
+            assert!(t as u64 == tag, "[C15/foreign.value] the error carries the offending index");
+        }
+        Err(e) => { core::mem::forget(e); assert!(false, "[C15/foreign.kind] a foreign index is reported as an invalid tag") }
+    };
+    let mut s = SliceWithPos { data: &bytes[..], pos: 0 };
+    match <EBig>::_deserialize_eps_inner(&mut s) {
+        Ok(v) => {
+            assert!(tag < 260, "[C15/foreign.eps] a foreign variant index is never mapped to a variant (eps copy)");
+            assert!(v as usize as u64 == tag, "[C15/tag.value] variant i is read from index i");
+        }
+        Err(deser::Error::InvalidTag(t)) => {
+            assert!(tag >= 260, "[C15/valid.eps] every written variant index is accepted (eps copy)");
+            assert!(t as u64 == tag, "[C15/foreign.value] the error carries the offending index");
+        }
+        Err(e) => { core::mem::forget(e); assert!(false, "[C15/foreign.kind] a foreign index is reported as an invalid tag") }
+    };
+}
